@@ -945,6 +945,23 @@ func c19RoundTrips(c *Ctx) {
 					clob = []int64{int64(args[0].Int()), int64(args[1].Int()), int64(args[2].Int()), int64(r1[0].Int()), int64(r2[0].Int())}
 				}
 			}
+			// an error raised inside a script function that a native calls back (the comparator of slices.SortFunc /
+			// SortStableFunc failing for ONE element) surfaces as the error of the outer call
+			var sortErrs []int64
+			if err == nil {
+				_, err = vm2.Eval(fstest.MapFS{}, "srt.go", "import \"golang.org/x/exp/slices\"\nfunc lessBut3(a, b int) bool {\n\tif a == 3 || b == 3 {\n\t\tpanic(\"three\")\n\t}\n\treturn a < b\n}\nfunc sortA(bad bool) int {\n\txs := []int{5, 3, 1, 4, 2, 6, 7, 8, 9, 0}\n\tif !bad {\n\t\txs[1] = 33\n\t}\n\tslices.SortFunc(xs, lessBut3)\n\treturn xs[0]\n}\nfunc sortB(bad bool) int {\n\txs := []int{5, 3, 1, 4, 2, 6, 7, 8, 9, 0}\n\tif !bad {\n\t\txs[1] = 33\n\t}\n\tslices.SortStableFunc(xs, lessBut3)\n\treturn xs[0]\n}\n")
+				for _, fn := range []string{"main.sortA", "main.sortB"} {
+					for _, bad := range []bool{true, false} {
+						if err == nil {
+							_, e := vm2.Call(fn, 1, goat.Bool(bad))
+							sortErrs = append(sortErrs, b2i(e != nil))
+						}
+					}
+				}
+			}
+			if err == nil {
+				ids = append(ids, map[string]any{"kind": "Call.errorFromCallback", "x": []int64{1, 0, 1, 0}, "got": sortErrs})
+			}
 			// nil-ness of what a script hands to the host: nil slices, maps, references and functions are nil, made ones are not
 			var nils []int64
 			if err == nil {
